@@ -196,11 +196,17 @@ func (c *Chain) ERC20OwnerMint(ctx sdk.Context, token common.Address, owner Key,
 // SetupExternal deploys a user-owned FIP20 and registers it through the real RegisterERC20 handler with one bridge
 // alias per chain, then adds the bridge tokens on each chain.
 func (c *Chain) SetupExternal(symbol string, idx int, owner Key, chains []string) (*Token, error) {
-	t := &Token{Kind: TokExternal, Base: strings.ToLower(symbol), Symbol: symbol, Owner: owner}
 	addr, err := c.DeployFIP20(owner, symbol+" token", symbol)
 	if err != nil {
 		return nil, err
 	}
+	return c.SetupExternalAt(symbol, idx, owner, addr, chains)
+}
+
+// SetupExternalAt registers an ERC-20 that already exists at addr (any bytecode answering name / symbol / decimals with
+// symbol == the given one) as an externally-owned pair with one bridge alias per chain.
+func (c *Chain) SetupExternalAt(symbol string, idx int, owner Key, addr common.Address, chains []string) (*Token, error) {
+	t := &Token{Kind: TokExternal, Base: strings.ToLower(symbol), Symbol: symbol, Owner: owner}
 	t.ERC20 = addr
 	var aliases []string
 	for _, ch := range chains {
